@@ -64,8 +64,47 @@ def parseTx (w : String) : Option (Nat × Bool) :=
     | _, _ => none
   | _ => none
 
+/-- fork scenarios: a block is written `height:hash:parent` (hash 0 = the base block) -/
+def parseFBlk (w : String) : Option Blk :=
+  match w.splitOn ":" with
+  | [h, k, p] => match h.toNat?, k.toNat?, p.toNat? with
+    | some h, some k, some p => some { height := h, hash := k, parent := p }
+    | _, _, _ => none
+  | _ => none
+
+/-- node text of the fork scenarios: also WHICH blocks wait in the cache, the lowest cached height, and every
+    attached confirmation (block hash:signer, with multiplicity) -/
+def showFork (q : Nat) (n : Node) : String :=
+  let cached := sortN ((n.bc.cache.flatMap (·.blocks)).map (·.hash))
+  let att := sortN (n.chain.attached.map (fun p => p.1 * 1000 + p.2))
+  s!"cur={currentHeight n.chain} stable={stableHeight q n.chain} known={joinWith "," ((sortN (n.chain.known.map (·.hash))).map toString)} cached={joinWith "," (cached.map toString)} first={firstHeight n.bc} att={joinWith "," (att.map (fun x => s!"{x / 1000}:{x % 1000}"))} confirms={ccSize n.cc}"
+
 def step (s : St) (w : List String) : St × String :=
   match w with
+  -- receive loop over a block TREE (forks): explicit blocks, same model functions
+  | ["fnode", base, q] =>
+    match base.toNat?, q.toNat? with
+    | some base, some q =>
+      let n : Node := { chain := { known := [{ height := base, hash := 0, parent := 0 }] } }
+      ({ s with node := n, q := q }, showFork q n)
+    | _, _ => (s, "bad-op")
+  | "fblocks" :: ws =>
+    match ws.mapM parseFBlk with
+    | some bs =>
+      let n := rcvBlocks (addLive 10240) s.q s.node bs
+      ({ s with node := n }, showFork s.q n)
+    | none => (s, "bad-op")
+  | ["fconfirm", k, h, sig] =>
+    match k.toNat?, h.toNat?, sig.toNat? with
+    | some k, some h, some sig =>
+      let n := rcvConfirm s.node { hash := k, height := h, sig := sig }
+      ({ s with node := n }, showFork s.q n)
+    | _, _, _ => (s, "bad-op")
+  | ["ftick", a] =>
+    match parseBool? a with
+    | some a => let n := tick a s.node; ({ s with node := n }, showFork s.q n)
+    | none => (s, "bad-op")
+  | ["fstable"] => let n := onStable (stableHeight s.q s.node.chain) s.node; ({ s with node := n }, showFork s.q n)
   | ["new"] => ({ s with bc := {} }, "ok")
   | ["add", h, t] =>
     match h.toNat?, t.toNat? with
